@@ -115,17 +115,24 @@ def run(ctx):
     datasets = {}
     items, metas = [], {}
 
-    def ds_for(pl, pr, nb=NB, rb=RB):
-        name = f"std-{nb}x{rb}-{pl}-{pr}"
+    def ds_for(pl, pr, nb=NB, rb=RB, endless=False):
+        name = f"std-{nb}x{rb}-{pl}-{pr}" + ("-unbounded" if endless else "")
         if name not in datasets:
-            datasets[name] = vlife.std_tables(nb, rb, pl, pr)
+            datasets[name] = vlife.std_tables(nb, rb, pl, pr, endless=endless)
         return name
+
+    def xo(b, **kw):
+        """exec options of a catalogue shape (unbounded sources are capped at NB batches per stream)"""
+        e = vlife.exec_of(b, **kw)
+        if b.get("endless"):
+            e["endless_cap"] = NB
+        return e
 
     # ------------------------------------------------------------------ 2a. reference (fault-free) runs of every shape
     refs = []
     for sh in vlife.ALL_SHAPES:
         b = vlife.BINDING[sh]
-        refs.append({"id": f"ref:{sh}", "sql": b["sql"], "dataset": ds_for(b["pl"], b["pr"]), "exec": vlife.exec_of(b), "want_plan": True})
+        refs.append({"id": f"ref:{sh}", "sql": b["sql"], "dataset": ds_for(b["pl"], b["pr"], endless=b.get("endless", False)), "exec": xo(b), "want_plan": True})
     for sh, b in SPILL_SHAPES.items():
         dsn = ds_for(b["pl"], 1, nb=8, rb=128)
         ex = dict(vlife.exec_of(dict(b, settings=b.get("settings", []))), batch_size=128)
@@ -182,8 +189,8 @@ def run(ctx):
                 k = k * RB + (ctx.seed + n) % RB
             fault = {"kind": f["kind"], "table": f["t"].lower(), "part": f["p"], "k": k}
             v = variant(ctx, n)
-            it = {"id": f"std:{sh}:{n}", "sql": b["sql"], "dataset": ds_for(b["pl"], b["pr"]),
-                  "exec": vlife.exec_of(b, rt=v["rt"], poll=v["poll"], pending_every=v["pending_every"]), "fault": fault}
+            it = {"id": f"std:{sh}:{n}", "sql": b["sql"], "dataset": ds_for(b["pl"], b["pr"], endless=b.get("endless", False)),
+                  "exec": xo(b, rt=v["rt"], poll=v["poll"], pending_every=v["pending_every"]), "fault": fault}
             items.append(it)
             metas[it["id"]] = dict(shape=sh, ref=f"ref:{sh}", must_err=bool(c["must_err"]), ordered=b.get("ordered", False),
                                    limit=b.get("limit", False), model_case=c)
@@ -273,13 +280,71 @@ def run(ctx):
             metas[it["id"]] = dict(case=c, sqlref=f"sqlref:{c['id']}", must_err=False, plan_based=True)
             n += 1
 
+    # ------------------------------------------------------------------ 2e. partial consumers of exchange-like operators
+    pcases, pbg = vlife.partial_cases(ctx)
+    pitems, plim_items = [], []
+    PNB, PRB = 8, 4
+    pby = collections.defaultdict(list)
+    for c in pcases:
+        pby[c["shape"]].append(c)
+
+    def real_k(km, i):
+        return [(ctx.seed + i) % 3, 3 + (ctx.seed + i) % 5, PNB][km]
+
+    def real_n(m, i):
+        return {2: (2, 4), 3: (3, 8)}[m][(ctx.seed + i) % 2]
+
+    for sh in vlife.PSHAPES:
+        cs = list(pby[sh])
+        ctx.rng.shuffle(cs)
+        want = 6 if quick else 40
+        # keep variety: both drop timings, both fault kinds, the end-of-input fault
+        chosen, seen = [], set()
+        for c in cs:
+            key = (c["fan"]["when"], c["fault"]["kind"], c["fault"]["k"] == 2, c["fan"]["m"])
+            if key not in seen or len(chosen) < want:
+                if key not in seen or not quick:
+                    chosen.append(c)
+                    seen.add(key)
+            if len(chosen) >= want:
+                break
+        for c in chosen:
+            f, fan = c["fault"], c["fan"]
+            nout = real_n(fan["m"], n)
+            fault = {"kind": f["kind"], "table": f["t"].lower(), "part": f["p"], "k": real_k(f["k"], n)}
+            if sh == "p_local_limit":
+                fault["k"] = PNB  # all rows delivered, then the error: satisfied partitions were dropped by the engine itself
+                it = {"id": f"plim:{n}", "sql": "SELECT id, k, v FROM l", "dataset": ds_for(2, 1, nb=PNB, rb=PRB),
+                      "exec": {"target_partitions": 2, "rt": "multi" if n % 2 else "current", "poll": "stream", "batch_size": PRB, "settings": []},
+                      "wrap": [{"op": "repartition", "kind": "hash", "n": 4, "col": "k"}, {"op": "local_limit", "fetch": 20}, {"op": "coalesce"}], "fault": fault}
+                plim_items.append(it)
+                n += 1
+                continue
+            b = vlife.PBINDING[sh]
+            drop = sorted(p for p in range(nout) if (p % fan["m"]) + 1 in fan["drop"])
+            it = {"id": f"part:{sh}:{n}", "sql": b["sql"], "dataset": ds_for(b["pl"], b["pr"], nb=PNB, rb=PRB),
+                  "exec": {"target_partitions": nout if b["tp"] == "n" else b["tp"], "rt": "multi", "workers": 2 + n % 2, "batch_size": PRB,
+                           "settings": list(b.get("settings", []))},
+                  "fault": fault, "partial": {"polls": [[0], [1], [0, 1, 2], [2, 0]][(ctx.seed + n) % 4], "drop": drop, "when": fan["when"], "reps": 20 if quick else 40}}
+            if b.get("wrap"):
+                it["wrap"] = [{"op": "interleave", "n": nout, "col": "k"}] if b["wrap"] == "interleave" else \
+                             [{"op": "repartition", "kind": b["wrap"], "n": nout, "col": "k"}]
+            pitems.append(it)
+            metas[it["id"]] = dict(shape=sh, must=b["must"], model_case=c, nout=nout)
+            n += 1
+    if plim_items:
+        base = plim_items[0]
+        plim_items.append(dict(base, id="plim:ref", fault=None))
+        plim_items.append({"id": "plim:parts", "sql": base["sql"], "dataset": base["dataset"], "exec": base["exec"], "wrap": base["wrap"][:1],
+                           "partial": {"polls": [0], "drop": [], "when": "before", "reps": 0}})
+
     selftest = os.environ.get("C20_SELFTEST") == "1"
     if selftest:
         # demonstrate that the oracle binds: the source swallows the error (Err -> end of stream); every such run must be condemned
         for it in items + sql_items:
             if it.get("fault") and it["fault"]["kind"] == "src_err":
                 it["fault"]["kind"] = "src_swallow"
-    res = vlife.run_items(ctx, items + sql_items, datasets, "faults", procs=6, budget=600 if quick else 6000)
+    res = vlife.run_items(ctx, items + sql_items + pitems + plim_items, datasets, "faults", procs=6, budget=600 if quick else 6000)
     res.update(ref_res)
 
     # ------------------------------------------------------------------ 3. verdicts
@@ -345,6 +410,83 @@ def run(ctx):
                   "observed_rows": r.get("rows"), "oracle": msg, "class": cls}
             ref_ops = (ref or res.get(meta.get("sqlref", ""), {})).get("plan_ops") or []
             report_violation(ctx, rp, key=finding_key(r, cls, ref_ops, it))
+    # ---- partial consumers: every surviving output ends with the error, or cleanly with exactly its reference rows
+    pstat = collections.Counter()
+    for it in pitems:
+        r = res[it["id"]]
+        meta = metas[it["id"]]
+        if r["outcome"] == "hang":
+            r2 = vlife.confirm(ctx, it, datasets, "pconfirm" + str(evaluations))
+            if r2["outcome"] != "hang":
+                pstat["hang_not_confirmed"] += 1
+                r = r2
+        evaluations += 1
+        msgs = []
+        if r["outcome"] == "hang":
+            msgs.append("no progress while driving the output partitions (watchdog, confirmed by a second run)")
+        elif r["outcome"] == "abort":
+            msgs.append(f"process abort (rc={r.get('rc')})")
+        elif r["outcome"] == "panic":
+            if it["fault"]["kind"] != "src_panic" and r.get("fired"):
+                msgs.append("panic instead of an error: " + (r.get("err") or "")[:200])
+            pstat["item_panic"] += 1
+        elif r["outcome"] != "partial":
+            raise ToolError(f"partial item {it['id']} ended with {r['outcome']}: {r.get('err')}")
+        else:
+            miss = [o for o in vlife.PBINDING[meta["shape"]]["ops"] if not any(x.startswith(o) for x in r.get("plan_ops", []))]
+            if miss and not any(d.get("shape") == meta["shape"] for d in drift):
+                drift.append({"shape": meta["shape"], "missing_operators": miss})
+            refp = r["reference"]["parts"]
+            must = meta["must"] and not r.get("may_stop_early", True)
+            for ri, rep in enumerate(r["reps"]):
+                pstat["reps"] += 1
+                for pi, pt in enumerate(rep["parts"]):
+                    if pt["end"] == "dropped":
+                        pstat["outputs_dropped"] += 1
+                    elif pt["end"] in ("err", "panic"):
+                        pstat["survivor_err"] += 1
+                    elif pt["end"] == "eos":
+                        if pt["rows"] != refp[pi]["rows"] or pt["bag"] != refp[pi]["bag"]:
+                            msgs.append(f"repetition {ri}: output partition {pi} ended cleanly with {pt['rows']} rows, the fault-free run routes {refp[pi]['rows']} rows to it "
+                                        f"(dropped outputs {it['partial']['drop']} {it['partial']['when']} the fault; fault fired={rep['fired']})")
+                        elif rep["fired"] and must:
+                            msgs.append(f"repetition {ri}: the input failed but live output partition {pi} ended cleanly (error not fanned out to every live output)")
+                        else:
+                            pstat["survivor_clean_complete"] += 1
+                if rep["fired"] and any(pt["end"] in ("err", "panic") for pt in rep["parts"]):
+                    nontrivial.add((it["sql"], json.dumps(it.get("wrap")), json.dumps(it["fault"], sort_keys=True), json.dumps(it["partial"], sort_keys=True), ri))
+        if msgs and not selftest:
+            report_violation(ctx, {"item": it, "datasets": {it["dataset"]: datasets[it["dataset"]]}, "meta": {"shape": meta["shape"], "must": meta["must"], "partial": True},
+                                   "observed": {k: v for k, v in r.items() if k not in ("reps", "rows")}, "oracle": "; ".join(msgs[:4]), "violating_messages": len(msgs), "class": "partial"})
+    # plan-level form: per-partition LIMIT above a hash repartition, satisfied partitions are dropped by the engine
+    if plim_items:
+        pref, parts = res["plim:ref"], res["plim:parts"]
+        if pref["outcome"] != "ok" or parts["outcome"] != "partial":
+            raise ToolError("reference runs of the local-limit form failed")
+        unsat = any(pt["rows"] < 20 for pt in parts["reference"]["parts"])
+        for it in plim_items:
+            if it.get("fault") is None or "partial" in it:
+                continue
+            r = res[it["id"]]
+            evaluations += 1
+            msg = None
+            if r["outcome"] == "ok":
+                if r.get("n_rows") != pref.get("n_rows"):
+                    msg = f"Ok with {r.get('n_rows')} rows, fault-free run {pref.get('n_rows')}"
+                elif r.get("fired") and unsat:
+                    msg = "the input failed while an unsatisfied LIMIT partition was still reading, but the query ended Ok"
+                pstat["plim_ok"] += 1
+            elif r["outcome"] in ("err",) or (r["outcome"] == "panic" and it["fault"]["kind"] == "src_panic"):
+                pstat["plim_err"] += 1
+                nontrivial.add((it["id"], "plim"))
+            elif r["outcome"] in ("hang", "abort", "panic"):
+                msg = f"{r['outcome']} instead of an error"
+            if msg and not selftest:
+                report_violation(ctx, {"item": it, "ref_item": next(x for x in plim_items if x["id"] == "plim:ref"), "datasets": {it["dataset"]: datasets[it["dataset"]]},
+                                       "meta": {"plim": True, "unsat": unsat}, "observed": {k: v for k, v in r.items() if k != "rows"}, "oracle": msg, "class": "partial_plan_level"})
+    pmstats = pbg.join()
+    if pstat["survivor_err"] < 50:
+        raise ToolError(f"vacuity: partial-consumer family observed too few surviving outputs ending with the error: {dict(pstat)}")
     if selftest:
         log("SELFTEST", json.dumps(dict(classes)))
         write_evidence(ctx, "fault_enumeration", {"evaluations": evaluations, "distinct_nontrivial": classes["selftest_swallow_detected"], "rule": "selftest", "samples": [dict(classes)]})
@@ -364,6 +506,7 @@ def run(ctx):
         "stream_tree_model": mstats, "plangen_states": pg_states, "sql_queries": len(sqlc), "sql_cases_skipped_by_calibration": skipped_cal,
         "spill_configurations": spill_cfgs, "operators_with_observed_fault": dict(sorted(ops_cov.items())),
         "binding_drift": drift, "streams_repeating_error_instead_of_ending": not_ending,
+        "partial_consumers": dict(pstat), "partial_consumer_items": len(pitems), "partial_consumer_model": pmstats,
     }, assumptions=[
         "shape binding: the StreamTree catalogue names query shapes; lib/vlife.py BINDING maps each to SQL + settings and checks that the physical plan contains the named operators (drift is reported, not a verdict)",
         "a fault that fired under an operator that may stop early (LIMIT / fetch / any join, decided on the physical plan for generated SQL, by the model for catalogue shapes) may legitimately stay unobserved; then only the result comparison applies",
@@ -373,10 +516,37 @@ def run(ctx):
     ])
 
 
+def partial_msgs(it, r, must):
+    """Oracle of one partial-consumer item (used by replay): messages for surviving outputs that ended cleanly but wrongly."""
+    msgs = []
+    if r["outcome"] in ("hang", "abort"):
+        return [r["outcome"] + " while driving the output partitions"]
+    if r["outcome"] != "partial":
+        return msgs
+    refp = r["reference"]["parts"]
+    must = must and not r.get("may_stop_early", True)
+    for ri, rep in enumerate(r["reps"]):
+        for pi, pt in enumerate(rep["parts"]):
+            if pt["end"] == "eos":
+                if pt["rows"] != refp[pi]["rows"] or pt["bag"] != refp[pi]["bag"]:
+                    msgs.append(f"repetition {ri}: output partition {pi} ended cleanly with {pt['rows']} rows, reference {refp[pi]['rows']}")
+                elif rep["fired"] and must:
+                    msgs.append(f"repetition {ri}: the input failed but live output partition {pi} ended cleanly")
+    return msgs
+
+
 def replay(ctx):
     rp = json.load(open(ctx.replay))
     it, refit = rp["item"], rp.get("ref_item")
     ds = rp.get("datasets", {})
+    if rp.get("meta", {}).get("partial"):
+        r = vlife.run_items(ctx, [it], ds, "replay", procs=1)[it["id"]]
+        msgs = partial_msgs(it, r, rp["meta"].get("must", False))
+        if msgs:
+            report_violation(ctx, dict(rp, observed={k: v for k, v in r.items() if k not in ("reps", "rows")}, oracle="; ".join(msgs[:4])))
+        write_evidence(ctx, "fault_enumeration", {"evaluations": len(r.get("reps", [])) or 1, "distinct_nontrivial": 2, "rule": "replay of one recorded partial-consumer case",
+                                                   "samples": [{"item": it["id"], "violating_messages": len(msgs)}]})
+        return
     todo = [it] + ([refit] if refit else [])
     res = vlife.run_items(ctx, todo, ds, "replay", procs=1)
     meta = rp["meta"]
